@@ -128,7 +128,13 @@ class GroundedEffect:
             next_state_grounded_predicates = next_state_predicates.get(
                 lifted_predicate_str, set()
             )
-            next_state_grounded_predicates.add(predicate)
+            # a fact is identified by its name and objects; its hash also depends on the parameters' types.
+            if predicate.untyped_representation not in {
+                state_predicate.untyped_representation
+                for state_predicate in next_state_grounded_predicates
+            }:
+                next_state_grounded_predicates.add(predicate)
+
             next_state_predicates[lifted_predicate_str] = next_state_grounded_predicates
 
     @staticmethod
